@@ -52,7 +52,7 @@ def part_spec(ctx):
     p = os.path.join(ctx.work, "ph.cfg")
     with open(p, "w") as f:
         f.write(
-            'CONSTANTS\n Variant = "multi"\n NSet = {1}\n MaxW = 1\n MaxLen = 1\n MaxBatches = 1\n UNums = {0}\n UDen = 16\n UserBounds = {}\n'
+            'CONSTANTS\n Variant = "multi"\n NSet = {1}\n MaxW = 1\n ImpNums = {1}\n ImpDen = 1\n MaxLen = 1\n MaxBatches = 1\n UNums = {0}\n UDen = 16\n UserBounds = {}\n'
             " PhNSet = {%s}\n PhCap = %d\n PhMaxRefill = %d\n PhMaxNodes = %d\n"
             "INIT InitPh\nNEXT NextPh\nINVARIANT PhCount\nINVARIANT PhLenN\nINVARIANT PhDone\nINVARIANT PhReqPositive\nINVARIANT PhCanProgress\n"
             "PROPERTY PhRank\nCHECK_DEADLOCK FALSE\n" % (("1,2,3,4", 3, 4, 3) if quick else ("1,2,3,4,5,7", 4, 5, 3))
